@@ -81,7 +81,8 @@ CLAIMS.update({
             "harness process; canonicalised event logs and statistics must be identical; workload independence of policy and seed sensitivity compared on arrival logs.",
             "Props/C07.lean; cross-process determinism is CPython runtime behaviour the model cannot exhibit"),
     "C19": ("PARTIAL. Lean theorems on the bridge's bookkeeping: a call is made iff something arrived or finished or the poll interval passed; new and known pipelines are disjoint; "
-            "a pipeline reported complete is dropped and never reported again; reply decoding is the identity on registered operators. Tie: loop-back HTTP server recording every "
+            "every call lists every known pipeline with its current completion flag, a pipeline stays known until the call that reports it complete and arrivals become known "
+            "(so a completed pipeline IS reported, once); a pipeline reported complete is dropped and never reported again; reply decoding is the identity on registered operators. Tie: loop-back HTTP server recording every "
             "request body, compared with the executor's real state and with the Lean bookkeeping model; the peer's decisions replayed in-process give identical statistics.",
             "Props/C19.lean; sockets/JSON/requests exercised not modelled; the Go reference cannot be built here"),
 })
@@ -116,14 +117,16 @@ CLAIMS.update({
     "C16": ("Lean theorems: the class invariant of the three queues holds initially and is kept by every round (so at every round of every run); given it, every assignment of query or "
             "interactive work goes to pool 0 and every other one to pool 1, first attempts and retries alike; the scheduler never suspends; a failed container's unfinished operators are "
             "queued together as one job; a retry whose doubled request reaches half of the pool is never assigned; the scheduler's own assertion cannot be tripped by the Assignment "
-            "constructor. Tie: closed-loop lock-step on two pools with mixed priorities and OOM retries; `check_C16` on every implementation trace.", "Props/C16.lean"),
+            "constructor. OVER WHOLE RUNS (`classes_stay_apart_over_whole_runs`): from a world in which every container sits where its class belongs (e.g. a fresh one), every run of scheduler + executor "
+            "that reaches its end - and every prefix of it - ends in such a world: at no tick boundary is there a batch container on pool 0, a query/interactive container on pool 1, or a write-out in "
+            "progress, retries included (the container property is carried through ticks, kills and collections by a generic 'kept by the executor' lemma). Tie: closed-loop lock-step on two pools with mixed priorities and OOM retries; `check_C16` on every implementation trace.", "Props/C16.lean"),
     "C17": ("Lean theorems about the naive scheduler's round for every queue and world: at most one container per pool, sized to all free CPU and RAM of that pool; pools with nothing free are "
             "skipped; FIRST COME FIRST SERVED: each pool's container goes to the first pipeline of the queue that is neither finished nor failed and has something ready, the pipelines served in a round are a subsequence of (queue ++ arrivals) in that order, the part not reached stays in place ahead of the ones scanned and kept (`first_eligible_pipeline_is_served`, `pipelines_are_served_in_queue_order`, `round_is_first_come_first_served`); work handed out belongs to a pipeline without failed operators and (single-operator mode) is one ready operator; no suspensions; "
             "in multi-operator mode everything put into one container is in dependency order; and the closed loop naive + executor never raises over whole runs in either mode (C08 theorems). "
             "Tie: closed-loop lock-step; `check_C17` on every implementation trace.", "Props/C17.lean"),
     "C18": ("Lean theorems about the overbook scheduler's round, for every queue and world: every container gets exactly one operator, one CPU and a memory limit equal to its pool's "
             "whole RAM, on a pool that still had a free CPU in the scheduler's snapshot (the snapshot never goes negative: CPU-bound); the operator's pipeline has fewer than three failed "
-            "containers; operators are left in the queue only when no pool has a free CPU; never suspends; and the CLOSED LOOP overbook + executor (overcommit on, either container mode) never raises over whole runs, for every sequence of arrival batches (`overbook_run_never_raises`, queue invariant + executor gate theorems; a concrete world meets the hypotheses). Tie: closed-loop lock-step with overcommit and OOM kills; `check_C18` on every implementation trace.", "Props/C18.lean"),
+            "containers; operators are left in the queue only when no pool has a free CPU; never suspends; and the CLOSED LOOP overbook + executor (overcommit on, either container mode) never raises over whole runs, for every sequence of arrival batches (`overbook_run_never_raises`, queue invariant + executor gate theorems; the invariant - one operator per container, no write-out in progress - holds again in the world the run ends in, hence at every tick boundary; a concrete world meets the hypotheses). Tie: closed-loop lock-step with overcommit and OOM kills; `check_C18` on every implementation trace.", "Props/C18.lean"),
 })
 CLAIMS = {k: v for k, v in CLAIMS.items() if k in READY}
 
